@@ -133,6 +133,9 @@ func c03(tier string) []*explore.Scenario {
 	for _, when := range []string{"on-request", "on-reply", "never"} {
 		out = append(out, c03UnaryCancelRace(when, 2))
 	}
+	// through the proxy: a handler that returns (successfully) while its caller still sends - the resets for the late
+	// messages follow the trailer through every hop, so the caller still sees the handler's outcome
+	out = append(out, c16RPCFam("C03", "early-return", true, 2))
 	for _, kind := range []string{"Unary", "Bidi", "SStream", "CStream"} {
 		out = append(out, c03Shapes(kind, tier == "thorough"))
 	}
